@@ -174,7 +174,7 @@ impl SigV4Authenticator {
                 Ok(k) => r == Ok::<GetSigningKeyResponse, SignatureError>(k),
                 Err(e) => r == Err::<GetSigningKeyResponse, SignatureError>(wrap_box_error(e)),
             }
-        }, //# C03 C14 name=one_call_exact_request_errors_mapped
+        }, //# C03 C14 C15 C01 name=one_call_exact_request_errors_mapped
 //@ bodystart
     broadcast use axiom_box_error_public;
 //@ end
